@@ -31,7 +31,11 @@ NO_COLUMNS_ASSERTS = int(__import__("os").environ.get("VERIF_C07_NO_COLUMNS_ASSE
 #     is no room, so widths can be negative / sum to 0 and the final ratio_distribute asserts); 0 = clamped with max(0, width)
 #     (pending_fixes/C14-table-flexible-width-nonnegative.diff)
 FLEX_NEGATIVE = int(__import__("os").environ.get("VERIF_C07_FLEX_NEGATIVE", "1"))
-FLAGS = (LEADING_REPEAT, MIN_WIDTH_CAPS_EXPAND, FIXED_RAW_MAXIMUM, NO_COLUMNS_ASSERTS, FLEX_NEGATIVE)
+# 1 = `table_width` is not recomputed after the collapse block re-measures the columns, so an expanding table whose columns shrank
+#     on the re-measure is never padded back to max_width; 0 = `table_width = sum(widths)` after the re-measure
+#     (pending_fixes/C07-table-expand-stale-width.diff)
+STALE_TABLE_WIDTH = int(__import__("os").environ.get("VERIF_C07_STALE_TABLE_WIDTH", "1"))
+FLAGS = (LEADING_REPEAT, MIN_WIDTH_CAPS_EXPAND, FIXED_RAW_MAXIMUM, NO_COLUMNS_ASSERTS, FLEX_NEGATIVE, STALE_TABLE_WIDTH)
 
 BOXES = [None, "HEAVY_HEAD", "CUSTOM", "ASCII", "SQUARE", "MINIMAL", "SIMPLE", "ROUNDED", "DOUBLE_EDGE", "HORIZONTALS", "SIMPLE_HEAVY",
          "MINIMAL_DOUBLE_HEAD", "ASCII_DOUBLE_HEAD", "HEAVY", "DOUBLE", "SQUARE_DOUBLE_HEAD", "MINIMAL_HEAVY_HEAD", "SIMPLE_HEAD",
@@ -262,11 +266,14 @@ def table_jobs(ctx):
         [{"header": ("s", "abc def"), "footer": ("s", ""), "ratio": 2}, {"header": ("s", "x"), "footer": ("s", ""), "ratio": 1}, {"header": ("s", "kk"), "footer": ("s", "")}],
         [{"header": ("s", "ab"), "footer": ("s", ""), "ratio": 1, "width": 4}, {"header": ("s", "some words here"), "footer": ("s", "")}],
         [{"header": ("s", ""), "footer": ("s", ""), "ratio": 1}, {"header": ("s", "q"), "footer": ("s", ""), "ratio": 3, "min_width": 3}, {"header": ("s", ""), "footer": ("s", ""), "max_width": 2}],
+        # a ratio column whose share is below its flex minimum (1 + padding): collapse, then the re-measure shrinks it
+        [{"header": ("s", "aaaa"), "footer": ("s", "")}, {"header": ("s", ""), "footer": ("s", ""), "ratio": 1}],
     ):
         for c in cols:
             c["overflow"] = "fold"
         rows = [{"cells": [("s", "x" if i == 0 else "") for i in range(len(cols))], "end_section": False}]
         for ov in ({"expand": True, "padding": (0, 0), "box": None, "show_header": False}, {"expand": True}, {"expand": True, "padding": (0, 0)},
+                   {"expand": True, "padding": (0, 2, 0, 1), "collapse_padding": True, "box": "HORIZONTALS"}, {"expand": True, "padding": (0, 3), "box": None},
                    {"width": 24, "padding": (0, 0), "box": "ASCII"}, {"expand": False, "padding": (0, 0)}):
             s = {"cols": cols, "rows": rows, "opts": dict(ov)}
             smin = structural_min(s)
